@@ -130,6 +130,11 @@ def gen_module(rng, modname, with_async_gen=False):
     for _ in range(2):
         funcs.append({"qual": "gen_byvalue", "call": "gen_byvalue", "kind": "generator", "mk": lambda vals: ((vals.rng.randrange(8),), {}),
                       "exit": "gen", "params": ["a"]})
+    # sometimes returns a value, sometimes runs off its end (same argument types): the traced return is Optional
+    src.append("def gen_optret(a):\n" + enter_line("gen_optret", ["a"]) +
+               "    yield _r.yielded(_t, a)\n    if a % 2:\n        return _r.ret(_t, 'v')\n    _r.ret(_t, None)\n\n")
+    funcs.append({"qual": "gen_optret", "call": "gen_optret", "kind": "generator", "mk": lambda vals: ((vals.rng.randrange(8),), {}),
+                  "exit": "gen", "params": ["a"]})
     # coroutines
     src.append("async def coro(a, b=None):\n" + enter_line("coro", ["a", "b"]) +
                "    x = await _r.Suspend()\n    y = await _r.Suspend()\n    return _r.ret(_t, (a, x + y))\n\n")
